@@ -787,6 +787,13 @@ impl C01Api {
 									Err(e) => {
 										crate::rt::dbg(&format!("late finalize err: {} / {:?}", e, e));
 										out.class("late:finalize-err");
+										// an honest reply to a late-locked send may only be refused for lack of funds at finalize time,
+										// a fee that no longer matches the selection, or a transaction too heavy for its many outputs
+										let es = format!("{:?}", e);
+										let ok_reason = es.contains("NotEnoughFunds") || es.contains("Fee(") || es.contains("Cannot split change") || (es.contains("TooHeavy") && sel.change_outputs >= 8);
+										if !ok_reason {
+											out.fail("c01:late:honest-finalize-refused", format!("honest reply to a late-locked send refused: {}", es));
+										}
 										// Selection may have succeeded and a later assembly step failed (e.g. too many
 										// outputs for one transaction): then a consistent, cancellable reservation may
 										// remain. If anything was reserved it must satisfy the same conservation rule.
